@@ -649,6 +649,10 @@ public:
 	[[nodiscard]] std::optional<CMsgPackReadBinaryScope<TReader>> OpenBinaryScope(size_t)
 	{
 		CheckEnd();
+		// Only a binary array is consumed here, any other type is left for loading as an usual array
+		if (mMsgPackReader->ReadValueType() != ValueType::BinaryArray) {
+			return std::nullopt;
+		}
 		size_t sz = 0;
 		const bool result = mMsgPackReader->ReadBinarySize(sz);
 		++mIndex;
@@ -780,6 +784,10 @@ public:
 	{
 		if (FindValueByKey(key))
 		{
+			// Only a binary array is consumed here, any other type is left for loading as an usual array
+			if (mMsgPackReader->ReadValueType() != ValueType::BinaryArray) {
+				return std::nullopt;
+			}
 			if (size_t sz = 0; mMsgPackReader->ReadBinarySize(sz)) {
 				return std::make_optional<CMsgPackReadBinaryScope<TReader>>(sz, mMsgPackReader, GetContext(), this);
 			}
@@ -925,6 +933,10 @@ public:
 
 	[[nodiscard]] std::optional<CMsgPackReadBinaryScope<IMsgPackReader>> OpenBinaryScope(size_t) const
 	{
+		// Only a binary array is consumed here, any other type is left for loading as an usual array
+		if (mMsgPackReader->ReadValueType() != ValueType::BinaryArray) {
+			return std::nullopt;
+		}
 		if (size_t sz = 0; mMsgPackReader->ReadBinarySize(sz)) {
 			return std::make_optional<CMsgPackReadBinaryScope<IMsgPackReader>>(sz, mMsgPackReader, GetContext());
 		}
